@@ -28,7 +28,7 @@ RULE = ('runs generated from the seed, one write per run: a collection of 1-12 s
         'container (bare SignatureArray = whole-array path; SignatureList / AnnotatedSignatures = per-signature path), compression none/gzip/lzf, small or multi-megabyte payload, '
         'target path fresh or holding a valid older signature file, writer dump_signatures or the signatures-create command. A counting run establishes B h5py boundaries and W write-class system calls; '
         'then every boundary 0..B-1 and every system call 1..W is a crash point (SIGKILL), plus torn variants (page-multiple prefix) of every multi-page write. '
-        'A case is one (write, crash point) pair; all are non-trivial except the fault-free baseline; distinct = distinct (write shape, crash kind, position, recovery outcome).')
+        'A case is one (write, crash point) pair; all are non-trivial except the fault-free baseline; distinct = distinct (write shape, crash kind, position, recovery outcome). Also: every boundary again with the writer dying from SIGINT (KeyboardInterrupt, unwinding as Python does), a drawn subset with SIGTERM, file-backed source collections, a payload above 2**20 values in one run in twenty-five.')
 STATES_MEASURE = 'distinct (container, compression, payload class, pre-existing, writer, crash kind, recovery outcome) combinations'
 
 REAL = ['gambit.sigs.hdf5 writer (both paths), gambit.cli.signatures create', 'h5py + libhdf5 + libc write path', 'the kernel page cache of the scratch file system', 'gambit.sigs.base.load_signatures as recovery']
